@@ -1,0 +1,20 @@
+//go:build verif
+
+// Contracts for the deductive verifier in /verif (gvc). This file contains comments only:
+// it adds no code to the package, with or without the "verif" build tag.
+
+package mysql
+
+//@ import "ariga.io/atlas/sql/schema"
+
+// ---------------------------------------------------------------------------------------
+// C02: referential actions are compared with an unset action and RESTRICT read as NO ACTION
+
+//@ spec func gvcNoAct(o schema.ReferenceOption) bool { return o == "" || o == schema.Restrict || o == schema.NoAction }
+
+//@ func (d *diff) ReferenceChanged(from, to schema.ReferenceOption) (r bool)
+//@   modifies nothing
+//@   ensures same-action-is-unchanged: from == to ==> !r
+//@   ensures unset-restrict-and-no-action-are-one-action: gvcNoAct(from) && gvcNoAct(to) ==> !r
+//@   ensures other-actions-compared-exactly: !gvcNoAct(from) && !gvcNoAct(to) ==> r == (from != to)
+//@   ensures an-action-against-none-is-a-change: gvcNoAct(from) != gvcNoAct(to) ==> r
